@@ -753,7 +753,7 @@ class Plane(Generic[LTComponentT]):
     """
 
     def __init__(self, bbox: Rect, gridsize: int = 50) -> None:
-        self._seq: List[LTComponentT] = []  # preserve the object order.
+        self._seq: Dict[LTComponentT, None] = {}  # preserve the object order.
         self._objs: Set[LTComponentT] = set()
         self._grid: Dict[Point, List[LTComponentT]] = {}
         self.gridsize = gridsize
@@ -796,7 +796,7 @@ class Plane(Generic[LTComponentT]):
             else:
                 r = self._grid[k]
             r.append(obj)
-        self._seq.append(obj)
+        self._seq[obj] = None
         self._objs.add(obj)
 
     def remove(self, obj: LTComponentT) -> None:
@@ -807,6 +807,7 @@ class Plane(Generic[LTComponentT]):
             except (KeyError, ValueError):
                 pass
         self._objs.remove(obj)
+        del self._seq[obj]
 
     def find(self, bbox: Rect) -> Iterator[LTComponentT]:
         """Finds objects that are in a certain area."""
